@@ -80,6 +80,7 @@ def main():
         sys.stderr.write(str(e) + '\n')
         return 2
     WORK = vlib.workdir(PROP)
+    chk.run_witnesses(BINS['dbg'])
     res = vlib.pmap(make_case, [(chk.seed, i) for i in range(n)], chunksize=4)
     opcodes = set()
     for r in res:
